@@ -14,7 +14,7 @@ RULE = ("random shots fired with extra data: sight above / on / below the bore, 
         "+-45 deg, zeroed and un-zeroed, supersonic / transonic / subsonic launches, steep downward shots that re-accelerate "
         "through Mach 1, ranges ending before / after the events, steps 10-300 ft, limits that end the trajectory early; "
         "a case = (shot, request); non-trivial when the trace contains at least one crossing")
-MUST_OBSERVE = ["fires", "trace_points", "up_crossings", "down_crossings", "mach_crossings", "flagged_rows_located",
+MUST_OBSERVE = ["fires_with_time_step", "fires", "trace_points", "up_crossings", "down_crossings", "mach_crossings", "flagged_rows_located",
                 "shots_without_events", "zeros_calls", "zeros_raises", "inclined", "launch_on_line",
                 "launch_above_line"]
 ASSUMPTIONS = ["a launch exactly on the sight line is not a crossing 'beyond the muzzle': for such launches events of the "
@@ -42,13 +42,16 @@ def check_case(ctx, case):
     trace = monitors.StepTrace()
     with monitors.quiet(), trace:
         try:
-            hit = calc.fire(shot, Distance.Foot(case["range_ft"]), Distance.Foot(case["step_ft"]), extra_data=True)
+            hit = calc.fire(shot, Distance.Foot(case["range_ft"]), Distance.Foot(case["step_ft"]), extra_data=True,
+                            time_step=case.get("time_step") or 0.0)
             rows, raised = list(hit), False
         except pb.RangeError as err:
             rows, raised = list(err.incomplete_trajectory), True
             hit = HitResult(shot, rows, True)
     pts = trace.points
     ctx.count("fires")
+    if case.get("time_step"):
+        ctx.count("fires_with_time_step")
     ctx.count("trace_points", len(pts))
     if look:
         ctx.count("inclined")
@@ -217,6 +220,11 @@ def gen_case(rng):
     if r_ft / step > 400:
         step = r_ft / 400
     case = {"kind": kind, "shot": s, "zero_ft": zero_ft, "range_ft": r_ft, "step_ft": step}
+    if kind not in ("loft", "dive", "dive_accel") and rng.random() < 0.25:
+        # rows recorded on time as well: events must be flagged all the same (a time record may fall due in the very step of an event)
+        case["time_step"] = rng.choice([0.0003, 0.001, 0.004, 0.02])
+        if r_ft <= 1500.0 and rng.random() < 0.3:
+            case["time_step"] = 1e-5        # below the integration time step: every step is a time record
     if cfg:
         case["config"] = cfg
     elif rng.random() < 0.15:
